@@ -193,18 +193,31 @@ class FortranEngine:
         # Form lists of period information (avoid using `iter_periods()` in case
         # this is being over-ridden elsewhere)
 
-        # Set default start and end periods if no others supplied
+        # Positions of the first and last periods, as in `iter_periods()`:
+        # labels given by the caller are looked up in `span`; the defaults are
+        # positions already
         if start is None:
-            start = self.span[self.lags]
+            start_index = self.lags
+            if start_index >= len(self.span):
+                raise IndexError(
+                    f'Too few periods ({len(self.span)}) in `span` '
+                    f'for the lags of the current object ({self.lags})'
+                )
+        else:
+            start_index = self._locate_period_in_span(start)
+
         if end is None:
-            end = self.span[-1 - self.leads]
+            end_index = len(self.span) - 1 - self.leads
+            if end_index < 0:
+                raise IndexError(
+                    f'Too few periods ({len(self.span)}) in `span` '
+                    f'for the leads of the current object ({self.leads})'
+                )
+        else:
+            end_index = self._locate_period_in_span(end)
 
         # Convert to an integer range and assemble accompanying list of labels
-        indexes = list(
-            range(
-                self._locate_period_in_span(start), self._locate_period_in_span(end) + 1
-            )
-        )
+        indexes = list(range(start_index, end_index + 1))
         labels = [self.span[t] for t in indexes]
 
         # Solve: Add 1 to `indexes` to go from zero-based (Python) to one-based
